@@ -528,7 +528,8 @@ Fixpoint cg_stmt (s : stmt) : frag * list error :=
            ldo _ <~ l_append (snd ef) ;;
            ldo _ <~ l_push OpOn ;;
            ldo sub_end <~ cg_on_targets c ts (snd (fst ef)) ;;
-           ldo _ <~ (if is_gosub then l_push_symbol ret else lret tt) ;;
+           (* out of range: the fall-through RETURN consumes the unused return address *)
+           ldo _ <~ (if is_gosub then (ldo _ <~ l_push OpReturn ;; l_push_symbol ret) else lret tt) ;;
            lret (fst c, sub_end))
   | SPrint c l =>
       let '(fs, errs) := exprs l in
